@@ -9,7 +9,9 @@ Init == i \in 1..Len(Cases)
 Next == UNCHANGED i
 Spec == Init /\ [][Next]_i
 R == Cases[i]
-ErrorSurfaces == /\ R.second.kind = (IF R.want = "protocol" THEN "ProtocolError" ELSE "AppError")
-                 /\ Len(R.second.args) >= 1 /\ R.second.args[1] = R.code
+ErrorSurfaces == IF R.want = "value"
+                 THEN R.second.kind = "return" /\ R.second.val = R.expected      \* a result is returned unchanged, character for character
+                 ELSE /\ R.second.kind = (IF R.want = "protocol" THEN "ProtocolError" ELSE "AppError")
+                      /\ Len(R.second.args) >= 1 /\ R.second.args[1] = R.code
 Monitor == ErrorSurfaces \/ PrintT(<<"PROPFAIL", i, "ErrorSurfacesAfterFault">>)
 =============================================================================
